@@ -76,3 +76,55 @@ def strace_ro(run, bins, ph):
         shutil.rmtree(d, ignore_errors=True)
     run.extra_cov["strace_ro_sessions_monitored"] = sessions
     run.counters["monitored_events"] = run.counters.get("monitored_events", 0) + sessions
+
+
+def memcheck(run, bins, ph):
+    """thorough tier: re-run a slice of the generated cases of this property on the shipped-flags (rel) build under
+    valgrind memcheck. ASan does not see stores done by the uninstrumented HDF5 library into nix-supplied buffers
+    unless they pass through an intercepted libc call; memcheck does. Undefined-value reports are switched off
+    (HDF5 writes padding bytes), invalid reads / writes / frees are what is looked for."""
+    import concurrent.futures, tempfile, shutil
+    binary = bins.get("rel") or vlib.build(["rel"])["rel"]
+    n = ph.get("cases", 16)
+    step = max(1, ph.get("stride", 7))
+
+    def one(i):
+        case = i * step
+        d = tempfile.mkdtemp(prefix="nixverif-vg-")
+        log = os.path.join(d, "vg.log")
+        cmd = ["valgrind", "--tool=memcheck", "--leak-check=no", "--undef-value-errors=no", "--error-exitcode=97", "--num-callers=25", "--log-file=" + log,
+               binary, "--prop", run.prop, "--tier", "quick", "--seed", str(run.seed), "--first", str(case), "--inproc", "--scratch", d]
+        try:
+            r = subprocess.run(cmd, stdout=subprocess.PIPE, stderr=subprocess.PIPE, text=True, timeout=ph.get("timeout", 900))
+            rc, out = r.returncode, r.stdout
+        except subprocess.TimeoutExpired:
+            rc, out = -1, ""
+        txt = open(log, errors="replace").read() if os.path.exists(log) else ""
+        shutil.rmtree(d, ignore_errors=True)
+        return case, rc, out, txt
+
+    done = 0
+    with concurrent.futures.ThreadPoolExecutor(max_workers=vlib.JOBS) as ex:
+        for case, rc, out, txt in ex.map(one, range(n)):
+            if rc == -1:
+                run.inconclusive.append({"case": case, "why": "memcheck timeout"})
+                continue
+            done += 1
+            errs = re.findall(r"==\d+== (Invalid (?:read|write|free)[^\n]*|Mismatched free[^\n]*|Source and destination overlap[^\n]*|Process terminating[^\n]*)", txt)
+            if rc == 97 or errs or rc < 0 or rc > 100:
+                first = errs[0] if errs else "exit code %d" % rc
+                m = re.search(r"(?:by|at) 0x[0-9A-F]+: (nix::[\w:~<>]+)", txt)
+                fn = m.group(1) if m else "no-nix-frame"
+                key = "%s/memcheck/%s/%s" % (run.prop, re.sub(r"\W+", "-", first.split(" of size")[0])[:40], fn)
+                run.add_violation(key, "valgrind memcheck on the shipped-flags build, case %d:\n%s" % (case, txt[:2500]), {"case": case, "phase": "memcheck"})
+            else:
+                # the in-process run prints the case record: oracle violations found there count as well
+                try:
+                    res = json.loads(out.strip().splitlines()[-1])
+                    for v in res.get("violations", []):
+                        run.add_violation(v["key"], v["detail"], {"case": case, "phase": "memcheck"})
+                    run.checks += res.get("checks", 0)
+                except Exception:
+                    pass
+    run.extra_cov["memcheck_cases"] = done
+    run.counters["monitored_events"] = run.counters.get("monitored_events", 0) + done
